@@ -507,3 +507,23 @@ pub fn validate_resubmitted(base: &WireReq, edited: &WireReq, cfg: &Cfg, prov_ba
     parts.headers = eparts.headers;
     Some(validate_http(http::Request::from_parts(parts, ebody), cfg, prov_edit, 64))
 }
+
+/// Canonical request bytes as the implementation computes them when every header value carries the "sensitive" flag
+/// (a marker for loggers and header compression; it is not part of the value) and the request is presented with
+/// the given protocol version.
+pub fn impl_canonical_flagged(w: &WireReq, cfg: &Cfg, version: http::Version) -> Option<Vec<u8>> {
+    use scratchstack_aws_signature::canonical::CanonicalRequest;
+    let mut req = w.to_http().ok()?;
+    for v in req.headers_mut().values_mut() {
+        v.set_sensitive(true);
+    }
+    *req.version_mut() = version;
+    let r = catch_unwind(AssertUnwindSafe(|| {
+        let (parts, body) = req.into_parts();
+        let (cr, _, _) = CanonicalRequest::from_request_parts(parts, body, cfg.options()).ok()?;
+        let reqs = build_vec_reqs(&cfg.reqs, ReqBuild::VecNew);
+        let ap = cr.get_auth_parameters(&reqs).ok()?;
+        Some(cr.canonical_request(&ap.signed_headers))
+    }));
+    r.ok().flatten()
+}
